@@ -73,7 +73,7 @@ VRelOne(outer, q, o, optimized) ==
        ELSE LET got == [i \in DOMAIN Bases(r) |-> Rel2Par(outer, Bases(r)[i])] IN
             IF got = want THEN "ok"
             ELSE IF SelfOverlap(outer) THEN "rel-selfoverlap-outer"     \* the parent->relative map is multi-valued
-            ELSE IF SelfOverlap(q) /\ Range(got) = Range(want) THEN "order-selfoverlap"
+            ELSE IF SelfOverlap(q) /\ BagOf(got) = BagOf(want) THEN "order-selfoverlap"   \* same bases with multiplicity, order lost
             ELSE "rel-bases"
 VRel(ev) == FirstBad(<<VRelOne(ev[2], ev[3], ev[5], TRUE), VRelOne(ev[2], ev[3], ev[6], FALSE)>>)
 
